@@ -1,5 +1,6 @@
 import PhononModel.Model.DerivDynMat
 import PhononModel.Model.Gruneisen
+import PhononModel.Model.GroupVelocity
 import PhononModel.Model.Wire
 open PhononModel PhononModel.Wire PhononModel.CP PhononModel.C12
 
@@ -39,6 +40,8 @@ def readTabs (c : Cur) : Option ((np : Nat) × (ns : Nat) × (nv : Nat) × Tabs 
         img := img }
     pure ⟨np, ns, nv, T, c⟩
   else none
+
+def showList (l : List Rat) : String := " ".intercalate (l.map showRat)
 
 def handle (line : String) : String :=
   let c : Cur := { toks := (tokens line).toArray }
@@ -116,6 +119,88 @@ def handle (line : String) : String :=
       if !c.atEnd then none
       if f = 0 then none
       pure (showRat (gvMode factor cutoff f e (thaw2 M 0 : Mat d Rat)))
+    | "fdd" =>
+      let (d, c) ← c.nat?
+      let (h, c) ← c.rat?
+      let (Dp, c) ← readCxMat c d
+      let (Dm, c) ← readCxMat c d
+      if !c.atEnd then none
+      if h = 0 then none
+      pure (showMat d (fdD (thaw2 Dp 0 : Mat d Rat) (thaw2 Dm 0 : Mat d Rat) h))
+    | "lgcert" =>
+      let (n, c) ← c.nat?
+      let (o, c) ← c.ints? (n * 9)
+      let (t, c) ← c.nats? (n * n)
+      if !c.atEnd then none
+      let ops : Array (Fin 3 → Fin 3 → Int) := Array.ofFn fun (k : Fin n) => fun i j => o.getD (k.1 * 9 + i.1 * 3 + j.1) 0
+      let tab : Array (Array Nat) := Array.ofFn fun (s : Fin n) => Array.ofFn fun (u : Fin n) => t.getD (s.1 * n + u.1) n
+      pure (toString (groupTableOk ops tab))
+    | "gvfull" =>
+      let (d, c) ← c.nat?
+      -- frequencies first: the model groups the bands itself, on the frequency array, with the documented tolerance
+      let (fr, c) ← c.rats? d
+      let (degcut, c) ← c.rat?
+      let sets := degenerateSets fr degcut
+      let sizes : Array Nat := (sets.map List.length).toArray
+      let idx : Array Nat := (sets.flatMap id).toArray
+      if idx.size != d then none
+      -- the harness hands over one `eigh` result per set of *its* grouping: the shapes must be the model's
+      let (nsets, c) ← c.nat?
+      let (sizesIn, c) ← c.nats? nsets
+      if sizesIn != sizes then none
+      let (uflat, c) ← c.rats? ((sizes.foldl (fun acc m => acc + m * m) 0) * 2)
+      let (ev, c) ← c.rats? (d * d * 2)
+      let (dd, c) ← c.rats? (3 * d * d * 2)
+      let (factor, c) ← c.rat?
+      let (cutoff, c) ← c.rat?
+      let (sym, c) ← c.nat?
+      let E : Fin d → Fin d → Cx Rat := fun r ν => ⟨ev.getD ((r.1 * d + ν.1) * 2) 0, ev.getD ((r.1 * d + ν.1) * 2 + 1) 0⟩
+      let ddm : Fin 3 → Mat d Rat := fun k r cc =>
+        ⟨dd.getD (((k.1 * d + r.1) * d + cc.1) * 2) 0, dd.getD (((k.1 * d + r.1) * d + cc.1) * 2 + 1) 0⟩
+      -- the three Cartesian directions as `_get_dD_analytical` forms them
+      let unitv : Fin 3 → Fin 3 → Rat := fun k j => if k = j then 1 else 0
+      let ddk : Fin 3 → FMat Rat := fun k => freeze2 (ddmDir (unitv k) ddm)
+      let ddF := freeze1 ddk
+      -- raw group velocities, set by set
+      let rec go (sets : List Nat) (pos upos : Nat) (acc : List (List Rat)) : Option (List (List Rat)) :=
+        match sets with
+        | [] => some acc.reverse
+        | m :: rest =>
+          if m = 0 then none else
+          let cols : Fin m → Nat := fun a => idx.getD (pos + a.1) d
+          if (List.finRange m).any (fun a => cols a ≥ d) then none else
+          let Es : Fin d → Fin m → Cx Rat := fun r a => if h : cols a < d then E r ⟨cols a, h⟩ else 0
+          let U : Fin m → Fin m → Cx Rat := fun a ν =>
+            ⟨uflat.getD ((upos + a.1 * m + ν.1) * 2) 0, uflat.getD ((upos + a.1 * m + ν.1) * 2 + 1) 0⟩
+          let rowsOut : List (List Rat) := (List.finRange m).map fun ν =>
+            (List.finRange 3).map fun k => gvDeg Es U (thaw2 ((thaw1 ddF #[] : Fin 3 → FMat Rat) k) 0 : Mat d Rat) ν
+          go rest (pos + m) (upos + m * m) (rowsOut.reverse ++ acc)
+      let raw ← go sizes.toList 0 0 []
+      if raw.length != d then none
+      let scaled : List (List Rat) := (raw.zip (List.range d)).map fun (row, nu) =>
+        row.map fun x => gvScale factor cutoff (fr.getD nu 0) x
+      if sym = 0 then
+        if !c.atEnd then none
+        pure (showList (scaled.flatMap id) ++ " | 0")
+      else if sym = 1 then
+        let (nops, c) ← c.nat?
+        let (o, c) ← c.ints? (nops * 9)
+        let (bv, c) ← c.rats? 9
+        let (biv, c) ← c.rats? 9
+        let (qb, c) ← c.rats? 3
+        let (tol, c) ← c.rat?
+        if !c.atEnd then none
+        let ops : List (Fin 3 → Fin 3 → Int) := (List.range nops).map fun k => fun i j => o.getD (k * 9 + i.1 * 3 + j.1) 0
+        let B : M3 Rat := fun i j => bv.getD (i.1 * 3 + j.1) 0
+        let Binv : M3 Rat := fun i j => biv.getD (i.1 * 3 + j.1) 0
+        let qbz : Fin 3 → Rat := fun x => qb.getD x.1 0
+        let nsel := (littleGroup ops qbz tol).length
+        if nsel = 0 then none
+        let out := scaled.flatMap fun row =>
+          let v : Fin 3 → Rat := fun x => row.getD x.1 0
+          (List.finRange 3).map fun x => symmetrizeGv ops B Binv qbz tol v x
+        pure (showList out ++ " | " ++ toString nsel)
+      else none
     | "meshsum" =>
       let (n, c) ← c.nat?
       let (w, c) ← c.nats? n
